@@ -516,6 +516,18 @@ def root_ykw_other():
     return dds.keep("/t13/a", g3, 1, y=8)
 
 
+def root_zkw():
+    return dds.keep("/t13/a", g3, 1, z="q")
+
+
+def root_zkw_other():
+    return dds.keep("/t13/a", g3, 1, z="r")
+
+
+def root_zpos():
+    return dds.keep("/t13/a", g3, 1, 5, "q")
+
+
 def root_swap():
     return dds.keep("/t13/a", g2, 2, 1)
 
